@@ -17,6 +17,7 @@ ASSUMPTIONS = ['strain operator = odd part of the package commons.fstrain for un
                'cones: only the limit s -> infinity and the 1/s^2 rate are demanded (s = 20, 40, 80)',
                'models registered but not importable in this tree (clpt_donnell_bcn) are skipped and named in the evidence']
 SIG_BC2 = 'C16:clpt_donnell_bc2-cone-k0-not-energy-consistent'
+SIG_NXX = 'C16:line-load-derived-from-Fc-frozen-at-first-evaluation'
 ANCHORED = ['clpt_donnell_bc1', 'clpt_donnell_bc2', 'clpt_donnell_bc3', 'clpt_donnell_bc4', 'clpt_donnell_bcn', 'clpt_sanders_bc1',
             'clpt_sanders_bc2', 'clpt_sanders_bc3', 'clpt_sanders_bc4', 'iso_clpt_donnell_bc2', 'iso_clpt_donnell_bc3', 'fsdt_donnell_bc1',
             'fsdt_donnell_bc2', 'fsdt_donnell_bc3', 'fsdt_donnell_bc4', 'fsdt_donnell_bcn', 'fsdt_sanders_bcn']
@@ -70,6 +71,9 @@ def cases(tier, seed):
     for iso in [m for m in models() if m.startswith('iso_')]:
         for alpha in (0., 30.):
             out.append(dict(kind='iso', model=iso, alpha=alpha, seed=seed))
+    for model, alpha, change in itertools.product(['clpt_donnell_bc1', 'fsdt_donnell_bc1', 'clpt_sanders_bc4'], [0., 30.],
+                                                  ['laminaprop', 'laminaprops', 'stack', 'plyt', 'r2', 'alphadeg', 'edge', 'loads', 'orders']):
+        out.append(dict(kind='redef', model=model, alpha=alpha, change=change, seed=seed))
     out.append(dict(kind='inventory', skipped=skipped, seed=seed))
     return out
 
@@ -231,7 +235,72 @@ def check_iso(case):
     return dict(fails=fails, execs=2, transitions=1, nontrivial=1)
 
 
+def check_redef(case):
+    """the linear matrices are re-evaluated (as every buckling analysis does) after the definition was changed on the same object"""
+    fails = []
+    M2 = (38.0e9, 9.2e9, 0.26, 3.5e9, 3.2e9, 2.7e9)
+
+    def change(cc):
+        c = case['change']
+        if c == 'laminaprop':
+            cc.laminaprop = M2
+            cc.laminaprops = []
+        elif c == 'laminaprops':
+            cc.laminaprops = [M2 for _ in cc.stack]
+        elif c == 'stack':
+            cc.stack = [t + 20. for t in cc.stack]
+        elif c == 'plyt':
+            cc.plyt = 0.2e-3
+            cc.plyts = []
+        elif c == 'r2':
+            cc.r2 = 0.31
+            cc.r1 = None
+        elif c == 'alphadeg':
+            cc.alphadeg = cc.alphadeg + 12.0
+            cc.r1, cc.L = None, None
+        elif c == 'edge':
+            cc.kuBot, cc.kphixTop = 2.0e6, 7.0e2
+        elif c == 'loads':
+            cc.Fc, cc.P, cc.T = 2.5e3, -1.0e4, 12.0
+            cc.Nxxtop = None
+            cc._load_rebuilt = False
+        elif c == 'orders':
+            cc.m2, cc.n2 = 3, 3
+
+    def mk():
+        cfg = cfg_of(dict(model=case['model'], alpha=case['alpha'], geo='g1', ords=(2, 2, 2), lam='general'))
+        cfg.update(Fc=1.0e3, P=-2.0e3, T=5.0)
+        return rs.shell_of(cfg)
+    a = mk()
+    a._calc_linear_matrices(silent=True)
+    change(a)
+    a._calc_linear_matrices(silent=True)
+    b = mk()
+    change(b)
+    b._calc_linear_matrices(silent=True)
+    for nm in ('k0', 'kG0'):
+        A, B = getattr(a, nm).toarray(), getattr(b, nm).toarray()
+        if A.shape != B.shape or np.abs(A - B).max() > 1e-12 * (np.abs(B).max() + 1e-300):
+            sig = None
+            if nm == 'kG0' and case['change'] in ('r2', 'alphadeg') and A.shape == B.shape:
+                # explained-by: the line load Nxxtop derived from Fc at the first evaluation is kept (Fc effectively rescaled)
+                c0 = mk()
+                c0._rebuild()
+                fac = (b.r2 * b.cosa) / (c0.r2 * c0.cosa)
+                b2 = mk()
+                change(b2)
+                b2.Fc = b2.Fc * fac
+                b2._calc_linear_matrices(silent=True)
+                if np.abs(A - b2.kG0.toarray()).max() <= 1e-11 * (np.abs(A).max() + 1e-300):
+                    sig = SIG_NXX
+            fails.append(fail('%s re-evaluated after changing "%s" on the same shell differs from a freshly defined shell' % (nm, case['change']),
+                              sig=sig, case=case, rel=float(np.abs(A - B).max() / (np.abs(B).max() + 1e-300)) if A.shape == B.shape else None))
+    return dict(fails=fails, execs=3, transitions=3, nontrivial=1)
+
+
 def check_case(case):
+    if case['kind'] == 'redef':
+        return check_redef(case)
     if case['kind'] == 'inventory':
         return dict(fails=[], execs=1, nontrivial=0, skipped=case['skipped'])
     return dict(k0=check_k0, cyl=check_cyl, kg=check_kg, iso=check_iso)[case['kind']](case)
